@@ -86,6 +86,20 @@ func refStart(s *Sim, l *RefLog) int64 {
 	return l.LogStart
 }
 
+// batchTimesDecrease reports whether the per-batch max timestamps of the log
+// go backwards somewhere (user CreateTime stamps, or transaction markers
+// stamped with the broker's clock between data batches with older stamps).
+func batchTimesDecrease(l *RefLog) bool {
+	max := int64(-1 << 62)
+	for _, b := range l.Batches {
+		if b.MaxTimestamp < max {
+			return true
+		}
+		max = b.MaxTimestamp
+	}
+	return false
+}
+
 func scenStartOffset(s *Sim) {
 	p := s.P
 	nb := int(p.Knob("nbroker", 1))
@@ -182,9 +196,28 @@ func scenStartOffset(s *Sim) {
 		}
 		opts = append(opts, kgo.ConsumePartitions(map[string]map[int32]kgo.Offset{"t0": m}))
 	}
-	cons := s.Client("c0", opts...)
 	first := map[int32]*kgo.Record{}
 	var fmu sync.Mutex
+	// a partition appears in a Fetch request of the consumer once its start
+	// position is resolved
+	resolved := map[int32]bool{}
+	s.OnReq = append(s.OnReq, func(r *WireReq) {
+		fr, ok := r.Req.(*kmsg.FetchRequest)
+		if !ok || r.ClientID != "c0" {
+			return
+		}
+		fmu.Lock()
+		defer fmu.Unlock()
+		for i := range fr.Topics {
+			if s.reqTopic(fr.Topics[i].Topic, fr.Topics[i].TopicID) != "t0" {
+				continue
+			}
+			for j := range fr.Topics[i].Partitions {
+				resolved[fr.Topics[i].Partitions[j].Partition] = true
+			}
+		}
+	})
+	cons := s.Client("c0", opts...)
 	stop := make(chan struct{})
 	var pw sync.WaitGroup
 	pw.Add(1)
@@ -214,6 +247,18 @@ func scenStartOffset(s *Sim) {
 	time.Sleep(time.Duration(p.Knob("resolve_ms", 6000)) * time.Millisecond)
 	s.Heal()
 	time.Sleep(4 * time.Second)
+	// (slow plans -- request time-outs from latency alone -- may need longer:
+	// the marker below must not be appended before every position is resolved)
+	if !s.WaitFor(120*time.Second, 200*time.Millisecond, func() bool {
+		fmu.Lock()
+		defer fmu.Unlock()
+		return len(resolved) == int(nparts)
+	}) {
+		s.OutOfScope("the consumer did not resolve every start position within two minutes of the last fault")
+		close(stop)
+		pw.Wait()
+		return
+	}
 	// the log must not have changed while the consumer resolved
 	for q := int32(0); q < nparts; q++ {
 		l, err := admin.ReadLog("t0", q)
@@ -273,7 +318,7 @@ func scenStartOffset(s *Sim) {
 			s.Violf("C40/nothing-returned", "%s, first returnable record %d, but nothing was returned for this partition", desc, exp)
 		case r != nil && r.Offset != exp:
 			cls := "C40/start/" + map[int64]string{1: "exact", 2: "exact-relative", 3: "start-relative", 4: "end-relative", 5: "after-milli", 6: "at-start", 7: "at-end"}[p.Knob("start_kind", 1)]
-			if p.Knob("start_kind", 1) == 5 && p.Knob("ts_non_monotonic", 0) != 0 {
+			if p.Knob("start_kind", 1) == 5 && (p.Knob("ts_non_monotonic", 0) != 0 || batchTimesDecrease(b)) {
 				cls = "C40/start/after-milli-non-monotonic-log"
 			}
 			if k := p.Knob("start_kind", 1); (k == 1 || k == 2) && p.Knob("start_at", 0) >= 0 {
